@@ -504,3 +504,85 @@ def flag_model(ctx):
         flags, len(init), len(seen), trans, nchecks))
     if nchecks == 0:
         ctx.violation('LZMA2Writer:no-emission', '-', 'model explored no control-byte emission (fail closed)')
+
+
+@rule('READER-STATE', ['C06', 'C01', 'C04'], floor=2)
+def reader_state(ctx):
+    """LZMA2 reader protocol state: while a dictionary reset is pending every chunk that does not
+    reset the dictionary is an error, and while properties are pending every LZMA chunk without new
+    properties is an error (all paths through the chunk-header decoder, for every control value,
+    with the pending flag set, end in Err). Otherwise the decoder runs without a dictionary/model
+    (garbage, or an endless read loop)."""
+    from lzlint.byteeval import StateEval
+    F = ctx.facts
+    st = st_reader_info(F)
+    if st is None:
+        return ctx.anchor_missing('LZMA2Reader chunk-header decoder')
+    f, subj, cs = st
+    prov = Prov(f)
+    skey = expr_str(subj)
+    adt = F.adt('LZMA2Reader')
+    bools = [fl['name'] for fl in adt['variants'][0]['fields'] if fl['ty'] == 'bool']
+    # flags read in conditions
+    flags = set()
+    for b in f.reachable:
+        t = f.blocks[b]['term']
+        if t['k'] == 'switch':
+            cond = prov.operand(t['discr'], 0, '%d:T' % b)
+            for x in expr_walk(cond):
+                if x[0] == 'field' and x[2] in bools and self_field_of(x):
+                    flags.add(x[2])
+    se = StateEval(f, prov)
+    RESET = {v for v, d in cs.items() if d.get('reset')}
+    VALID = {v for v, d in cs.items() if d['ok']}
+    END = {v for v, d in cs.items() if d.get('end')}
+    # per value: which flags can be cleared on an Ok path, does an Ok path construct a new model / prepare the range decoder
+    clear = {fl: set() for fl in flags}
+    props = set()
+    lzma = set()
+    ctor_blocks = set()
+    prep_blocks = {b for b, t, c in f.calls() if c.name == 'prepare'}
+    for b, t, c in f.calls():
+        for g in F.resolve_callee(c):
+            if g.self_adt == f.self_adt and any(c2.is_('LZMADecoder::new') for _, _, c2 in g.calls()):
+                ctor_blocks.add(b)
+        if c.is_('LZMADecoder::new'):
+            ctor_blocks.add(b)
+    for v in sorted(VALID):
+        for path, env in se.run({skey: v}):
+            if ok_err_of_path(f, path) == 'Err':
+                continue
+            for fl in flags:
+                if env.get('self.%s' % fl) == 0:
+                    clear[fl].add(v)
+            if any(b in ctor_blocks for b in path):
+                props.add(v)
+            if any(b in prep_blocks for b in path):
+                lzma.add(v)
+    roles = {}
+    for fl in flags:
+        if clear[fl] == RESET and RESET:
+            roles['dict'] = fl
+        elif clear[fl] == props and props:
+            roles['props'] = fl
+    if 'dict' not in roles or 'props' not in roles:
+        ctx.violation('LZMA2Reader:pending-flags', f.loc(0), 'cannot identify the pending-dictionary-reset / pending-properties flags '
+                      'by the control values that clear them (flags %s, clear sets %s; RESET=%s PROPS=%s): the reader no longer '
+                      'tracks these protocol states (fail closed)' % (sorted(flags), {k: _ranges(v) for k, v in clear.items()},
+                                                                    _ranges(RESET), _ranges(props)))
+        return
+    for role, must_err in (('dict', VALID - RESET - END), ('props', lzma - props)):
+        fl = roles[role]
+        bad = []
+        for v in sorted(must_err):
+            for path, env in se.run({skey: v, 'self.%s' % fl: 1}):
+                if ok_err_of_path(f, path) != 'Err':
+                    bad.append(v)
+                    break
+        key = 'LZMA2Reader:%s-pending-enforced' % role
+        if bad:
+            ctx.violation(key, f.loc(0), 'with `%s` set the chunk-header decoder accepts control byte(s) %s that do not satisfy it: '
+                          'the chunk is decoded without the %s the stream promised (wrong output, or an endless read loop when no '
+                          'model exists)' % (fl, _ranges(bad), 'dictionary reset' if role == 'dict' else 'properties / probability model'))
+        else:
+            ctx.ok(key, f.loc(0), 'with `%s` set every control byte in %s ends in Err on all paths' % (fl, _ranges(must_err)))
